@@ -99,6 +99,14 @@ def replay(obligation, extra):
                 return dict(found=True, input='ping_timeout=%s poll=1, last pong at %s' % (t_out, pong_at), expected='Unresponsive in (%s, %s]' % (base + t_out, base + t_out + 1), observed='unresponsive at %r; events %r' % (un, [n for n, _ in times][-4:]))
             if [n for n, _ in times][-1] != 'disconnected' or run.events[-1].graceful:
                 return dict(found=True, input='ping_timeout=%s' % t_out, expected='non-graceful Disconnected after Unresponsive', observed=[n for n, _ in times][-3:])
+    # the ping timeout keeps running while the client is closing (Close sent, server silent, no close timeout)
+    for close_at in (1, 0):
+        tried += 1
+        run, times, state = run_history([], 12, 1, 0, 3, None, close_at=close_at)
+        un = [t for nme, t in times if nme == 'unresponsive']
+        if not un or not (3 < un[0] <= 4 + 1e-9):
+            return dict(found=True, input='ping_timeout=3 poll=1, client close() at t=%s, server silent, close_timeout=None' % close_at,
+                        expected='Unresponsive in (3, 4] and a non-graceful Disconnected', observed='unresponsive at %r; last events %r' % (un, [n for n, _ in times][-4:]))
     tried += 1
     run, times, state = run_history([], 12, 1, 0, None, None)
     if any(n == 'unresponsive' for n, _ in times):
